@@ -423,6 +423,13 @@ def run(ctx):
             [s for _, s, _ in drng.sample(corp, 10 if ctx.quick() else len(corp)) if not common.has_include(s)]:
         cases.append({"id": len(cases), "src": gen_decls.with_const_dag(drng, src)[0], "stream": "consts+",
                       "want_json": True})
+    # ... LISTs that share item names, the shared names used bare (the table the compiler resolves a bare item
+    # through): generator of the C03 check, a PRNG of its own
+    from props import c03 as _c03
+    srng = random.Random("C06/shared-items/%s" % ctx.seed)
+    for k in range(12 if ctx.quick() else 300):
+        cases.append({"id": len(cases), "src": _c03.shared_item_program(srng, k)["ink"], "stream": "shared-items",
+                      "want_json": True})
     # ... and mutants of the declaration-table programs (clause (c) only: compiled, not validated as stories)
     for k in range(100 if ctx.quick() else 3000):
         st, src = mutate_ink.one(drng, decl_pool, stream=drng.choice(["char", "token", "line"]))
